@@ -22,8 +22,21 @@ func (f *flat) add(g *Graph) int {
 		}
 		stages = append(stages, lib.CoqList(ns))
 	}
-	f.graphs[idx] = lib.CoqApp("mkGraph", lib.CoqBool(g.Dag), lib.CoqList(stages), lib.CoqBool(g.Loop), lib.CoqNat(g.Max))
+	f.graphs[idx] = lib.CoqApp("mkGraph", lib.CoqBool(g.Dag || g.WF), lib.CoqList(stages), lib.CoqBool(g.Loop), lib.CoqNat(g.Max), brCoq(g))
 	return idx
+}
+
+func brCoq(g *Graph) string {
+	if !g.Loop && !g.EndBr {
+		return "BrNone"
+	}
+	switch g.Br {
+	case "fail":
+		return lib.CoqApp("BrFail", g.BrErr.coq())
+	case "panic":
+		return lib.CoqApp("BrPanic", lib.CoqN(uint64(g.BrID)))
+	}
+	return "BrOk"
 }
 
 func flavCoq(s string) string {
@@ -89,7 +102,7 @@ func (f *flat) node(n *Node) string {
 			lib.CoqList([]string{lib.CoqApp("NTools", lib.CoqStr("tn"), lib.CoqList(ts))}),
 			lib.CoqList([]string{lib.CoqApp("NLam", lib.CoqStr("post"), "FI", "BOk")}),
 		})
-		f.graphs = append(f.graphs, lib.CoqApp("mkGraph", "false", stages, "false", lib.CoqNat(0)))
+		f.graphs = append(f.graphs, lib.CoqApp("mkGraph", "false", stages, "false", lib.CoqNat(0), "BrNone"))
 		return lib.CoqApp("NSub", lib.CoqStr(n.Key), lib.CoqNat(idx))
 	}
 	panic("harness: bad node kind " + n.Kind)
